@@ -195,14 +195,88 @@ func runC11Bulk(c *Ctx) {
 		c.Errorf("anchor rtree.bulkNode does not resolve")
 	}
 	if ex := c.P.Func("rtree.(*RTree).Extent"); ex != nil {
-		ok := false
-		for _, r := range returnsOf(ex) {
-			if call, isCall := r.Results[0].(*ssa.Call); isCall && calleeName(call) == "rtree.calculateBound" {
-				ok = true
+		// Extent interpreted on modelled roots (nil, 0..3 entries with boxes from a
+		// small family): the per-axis min of the minima / max of the maxima of the
+		// root's entries, with the flag false exactly for an empty tree
+		boxes := [][4]float64{{0, 0, 1, 1}, {2, -1, 3, 0}, {-2, 1, -1, 5}, {0, 0, 0, 0}, {-1, -3, 4, 2}}
+		inl := func(g *ssa.Function) bool {
+			switch FuncName(g) {
+			case "rtree.calculateBound", "rtree.combine", "rtree.fastMin", "rtree.fastMax":
+				return true
+			}
+			return false
+		}
+		problem, undec := "", ""
+		models := 0
+		var pick func(n int, chosen []int)
+		pick = func(n int, chosen []int) {
+			if problem != "" || undec != "" {
+				return
+			}
+			if len(chosen) < n {
+				for b := range boxes {
+					pick(n, append(chosen, b))
+				}
+				return
+			}
+			models++
+			m := &Model{Num: map[string]float64{}, Bool: map[string]bool{}, Missing: map[string]bool{}}
+			it := &k4interp{p: c.P, m: m, mem: map[string]k4val{}, inline: inl}
+			if n < 0 {
+				it.mem["$0.root"] = k4val{kind: 3, s: "nil"}
+			} else {
+				it.mem["$0.root"] = k4val{kind: 3, s: "R", addr: true}
+				m.Num["R.numEntries"] = float64(n)
+				for i, b := range chosen {
+					for j, fl := range []string{"MinX", "MinY", "MaxX", "MaxY"} {
+						m.Num[fmt.Sprintf("R.entries[%d].box.%s", i, fl)] = boxes[b][j]
+					}
+				}
+			}
+			res, err := it.call(ex, []k4val{{kind: 3, s: "$0"}}, nil)
+			if err != nil || len(res) != 2 || res[1].kind != 1 {
+				undec = fmt.Sprintf("%v %v %s", err, res, trunc(missingList(m)))
+				return
+			}
+			if res[1].b != (n > 0) {
+				problem = fmt.Sprintf("for a root with %d entries Extent reports ok=%v", n, res[1].b)
+				return
+			}
+			if n <= 0 {
+				return
+			}
+			want := boxes[chosen[0]]
+			for _, b := range chosen[1:] {
+				want[0] = math.Min(want[0], boxes[b][0])
+				want[1] = math.Min(want[1], boxes[b][1])
+				want[2] = math.Max(want[2], boxes[b][2])
+				want[3] = math.Max(want[3], boxes[b][3])
+			}
+			for j, fl := range []string{"MinX", "MinY", "MaxX", "MaxY"} {
+				got, err := it.lookup(res[0].s+"."+fl, nil0)
+				if err != nil || got.kind != 2 {
+					undec = fmt.Sprintf("field %s of the result: %v %s", fl, err, trunc(missingList(m)))
+					return
+				}
+				if got.f != want[j] {
+					problem = fmt.Sprintf("for a root whose %d entries have boxes %v Extent gives %s=%v; the bound of the root is %v", n, chosenBoxes(boxes, chosen), fl, got.f, want)
+					return
+				}
 			}
 		}
-		c.Check(ok, ex.Pos(), FuncName(ex), "extent", "calculateBound(root)", "Extent is not the bound of the root node")
+		for n := -1; n <= 3; n++ {
+			pick(n, nil)
+		}
+		reportK4(c, ex, "extent", undec, problem, fmt.Sprintf("the bound of the root's entries, false for an empty tree (%d modelled roots)", models))
 	}
+}
+
+func chosenBoxes(boxes [][4]float64, chosen []int) [][4]float64 {
+	var out [][4]float64
+	for _, b := range chosen {
+		out = append(out, boxes[b])
+	}
+	return out
 }
 
 var fracRe = regexp.MustCompile(`^geom\.\(linearInterpolator\)\.interpolate\(.*,([-0-9.e+]+)\)$`)
